@@ -1,73 +1,118 @@
 import GrpcModel.Driver.Loop
 import GrpcModel.Model.ClusterRefs
+import GrpcModel.Model.PluginRefs
 /-!
 component `s_clusterrefs` (C51, tie T2): the real xDS resolver + dependency manager in a synctest bubble.
 
-  rds <r,r,…>   pause   next   select <id> <c>   commit <id>      (r = c | c+c'+…: clusters of one route;
-  the same cluster may occur in several routes — the resolver takes ONE reference per distinct cluster)
+  rds <r,r,…>   pause   next   select <id> <c|p<k>>   commit <id>
+      r = c | c+c'+… (clusters of one route; the same cluster may occur in several routes — the resolver
+      takes ONE reference per distinct cluster) | p<k> (a route whose action is cluster specifier plugin k)
 
-Model side: every state change goes through `GrpcModel.ClusterRefs.step`.  The driver only keeps track
-of where the blocking callbacks sit in the resolver's serializer queue (`segs`): `pause` appends one,
-`next` removes the oldest; queued `Update`s in front of the first blocking callback are delivered
-(`Op.deliver`) as soon as they are enqueued, the others wait.
+Model side: every state change goes through `GrpcModel.ClusterRefs.step` (clusters, dependency manager)
+and `GrpcModel.PluginRefs.step` (plugins, numbering of config selectors), run in lockstep.  The driver
+only keeps the FIFO of callbacks waiting in the resolver's serializer (`tags`: an `Update` with the
+plugins its routes name, or a regen scheduled by a config selector's sendNewServiceConfig) and where
+the blocking callbacks sit in it (`segs`): `pause` appends one, `next` removes the oldest; callbacks in
+front of the first blocking callback run as soon as they are enqueued, the others wait.
 
 Monitor (implementation outputs + op log only): every RPC for which SelectConfig succeeded and whose
-OnCommitted has not been called finds its cluster among the children of the last service config AND
-among the clusters of the last XDSConfig given to the channel; a repeated OnCommitted changes no
-reference count; when nothing is pending (no blocking callback, no uncommitted RPC) the service
-config lists only clusters of the current route configuration.  The cause tag in `[…]` comes from the
-model's ghost state (it only serves to tell the known finding F36 from anything else).
+OnCommitted has not been called finds its cluster / plugin among the children of the last service
+config, and its cluster among the clusters of the last XDSConfig given to the channel; a repeated
+OnCommitted changes no reference count; the channel is never given a config selector that had already
+been replaced by a newer one;
+when nothing is pending (no blocking callback, no uncommitted RPC) the service config lists only
+clusters / plugins of the current route configuration.  The cause tag in `[…]` comes from the model's
+ghost state (it only serves to tell the known findings apart).
+Plugins are the numbers 1000+k inside the monitor.
 -/
 namespace GrpcModel.Driver.S_clusterrefs
 open GrpcModel.Driver GrpcModel.ClusterRefs
 
+inductive QTag | upd (ps : List Nat) | regen
+deriving Repr
+
 structure DSt where
   m : State := init
-  segs : List Nat := []              -- per outstanding blocking callback: updates queued right behind it
+  pm : GrpcModel.PluginRefs.State := GrpcModel.PluginRefs.init
+  tags : List QTag := []             -- callbacks waiting in the serializer, oldest first
+  routeP : List Nat := []            -- plugins named by the route configuration the dependency manager has
+  segs : List Nat := []              -- per outstanding blocking callback: callbacks queued right behind it
   -- monitor (from the implementation's answers)
-  inflight : List (Nat × Nat) := []  -- (rpc id, cluster) selected ok, not committed
+  inflight : List (Nat × Nat) := []  -- (rpc id, cluster or 1000+plugin) selected ok, not committed
   done : List Nat := []              -- committed ids
   lastRoute : List Nat := []
   lastAct : String := ""
 
+def showName (n : Nat) : String := if n ≥ 1000 then s!"p{n - 1000}" else toString n
+
 def showList (l : List Nat) : String :=
-  if l.isEmpty then "-" else ",".intercalate ((l.mergeSort (· ≤ ·)).map toString)
+  if l.isEmpty then "-" else ",".intercalate ((l.mergeSort (· ≤ ·)).map showName)
 
 def showAct (a : List Info) : String :=
   if a.isEmpty then "-" else
   ",".intercalate ((a.mergeSort (fun x y => x.name ≤ y.name)).map fun i => s!"{i.name}={i.refCount}")
 
-def status (s : State) : String :=
-  s!"sc={showList s.pushedSC} xc={showList s.pushedXC} act={showAct s.active}"
+def showPl (a : List (Nat × Nat)) : String :=
+  if a.isEmpty then "-" else
+  ",".intercalate ((a.mergeSort (fun x y => x.1 ≤ y.1)).map fun e => s!"p{e.1}={e.2}")
 
-def deliverN : Nat → State → State
-  | 0, s => s
-  | n + 1, s => deliverN n (step s .deliver)
+def status (d : DSt) : String :=
+  s!"sc={showList (d.m.pushedSC ++ d.pm.pushedSP.map (· + 1000))} xc={showList d.m.pushedXC} act={showAct d.m.active} pl={showPl d.pm.active} sel={if d.pm.curSel = 0 then "-" else if d.pm.pushedSel = d.pm.curSel then "cur" else "old"}"
 
-def drain : Nat → State → State
-  | 0, s => s
-  | fuel + 1, s => if s.queue.isEmpty then s else drain fuel (step s .deliver)
+def isUpd : QTag → Bool | .upd _ => true | .regen => false
 
-/-- after an op: updates enqueued meanwhile either run at once (no blocking callback) or wait
+/-- callbacks the two models have scheduled since the last look: Updates (they carry the plugins of
+    the route configuration the dependency manager has now) come before regens (stop() releases the
+    clusters before the plugins) -/
+def sync (d : DSt) : DSt :=
+  let nu := d.m.queue.length - (d.tags.filter isUpd).length
+  let nr := d.pm.pending - (d.tags.filter (fun t => !isUpd t)).length
+  { d with tags := d.tags ++ List.replicate nu (.upd d.routeP) ++ List.replicate nr .regen }
+
+/-- the serializer runs its oldest callback -/
+def deliverOne (d : DSt) : DSt :=
+  match d.tags with
+  | [] => d
+  | .upd ps :: rest =>
+    sync { d with tags := rest, m := step d.m .deliver, pm := GrpcModel.PluginRefs.step d.pm (.update ps) }
+  | .regen :: rest =>
+    sync { d with tags := rest, m := step d.m .regen, pm := GrpcModel.PluginRefs.step d.pm .regen }
+
+def deliverN : Nat → DSt → DSt
+  | 0, d => d
+  | n + 1, d => deliverN n (deliverOne d)
+
+def drain : Nat → DSt → DSt
+  | 0, d => d
+  | fuel + 1, d => if d.tags.isEmpty then d else drain fuel (deliverOne d)
+
+/-- after an op: callbacks enqueued meanwhile either run at once (no blocking callback) or wait
     behind the last one -/
 def settle (d : DSt) : DSt :=
+  let d := sync d
   match d.segs.reverse with
-  | [] => { d with m := drain 1000 d.m }
+  | [] => drain 1000 d
   | last :: revInit =>
     let known := d.segs.foldl (· + ·) 0
-    { d with segs := (((last + (d.m.queue.length - known)) :: revInit).reverse) }
-
-/-- `1,2+2,1` ↦ the clusters named by the routes, with repetitions: [1,2,2,1] -/
-def parseRoutes (l : String) : Option (List Nat) :=
-  if l = "-" then some [] else
-  ((l.splitOn ",").mapM fun (item : String) => (item.splitOn "+").mapM String.toNat?).map List.flatten
+    { d with segs := (((last + (d.tags.length - known)) :: revInit).reverse) }
 
 def parseField (impl : String) (key : String) : Option String :=
   ((impl.splitOn " ").filterMap fun t => if t.startsWith key then some (t.drop key.length).toString else none).head?
 
-def parseNatList (s : String) : List Nat := if s = "-" then [] else (s.splitOn ",").filterMap String.toNat?
+def parseName (t : String) : Option Nat :=
+  if t.startsWith "p" then ((t.drop 1).toString.toNat?).map (· + 1000) else t.toNat?
+
+def parseNames (s : String) : List Nat := if s = "-" then [] else (s.splitOn ",").filterMap parseName
+
+/-- `1,2+2,p1` ↦ the clusters named by the routes (with repetitions) and the plugins -/
+def parseRoutes (l : String) : Option (List Nat × List Nat) :=
+  if l = "-" then some ([], []) else
+  ((l.splitOn ",").mapM fun (item : String) => (item.splitOn "+").mapM parseName).map fun ll =>
+    let all := ll.flatten
+    (all.filter (· < 1000), (all.filter (· ≥ 1000)).map (· - 1000))
 
 def causeOf (m : State) (c : Nat) : String :=
+  if c ≥ 1000 then "[plugin]" else
   match findInfo m.active c with
   | some i => if i.spent then "[clusterInfo whose unsubscribe was already used]" else "[live subscription]"
   | none => "[no clusterInfo]"
@@ -76,18 +121,20 @@ def causeOf (m : State) (c : Nat) : String :=
 def monitor (d : DSt) (impl : String) (recommit : Bool) (prevAct : String) : String :=
   match parseField impl "sc=", parseField impl "xc=", parseField impl "act=" with
   | some sc, some xc, some act =>
-    let scl := parseNatList sc
-    let xcl := parseNatList xc
-    if recommit ∧ act ≠ prevAct then "VIOL a second OnCommitted changed the reference counts" else
+    let scl := parseNames sc
+    let xcl := parseNames xc
+    let actAll := act ++ " " ++ (parseField impl "pl=").getD ""
+    if recommit ∧ actAll ≠ prevAct then "VIOL a second OnCommitted changed the reference counts" else
+    if (parseField impl "sel=") = some "old" then "VIOL the channel was given again a config selector that a newer one had already replaced (a stopped config selector routes new RPCs)" else
     match d.inflight.find? (fun r => !scl.contains r.2) with
-    | some r => s!"VIOL RPC {r.1} is routed to cluster {r.2} and not committed, but the service config no longer contains it {causeOf d.m r.2}"
+    | some r => s!"VIOL RPC {r.1} is routed to cluster {showName r.2} and not committed, but the service config no longer contains it {causeOf d.m r.2}"
     | none =>
-      match d.inflight.find? (fun r => !xcl.contains r.2) with
+      match d.inflight.find? (fun r => r.2 < 1000 && !xcl.contains r.2) with
       | some r => s!"VIOL RPC {r.1} is routed to cluster {r.2} and not committed, but the XDSConfig of the channel no longer contains it {causeOf d.m r.2}"
       | none =>
         if d.segs.isEmpty ∧ d.inflight.isEmpty then
           match scl.find? (fun c => !d.lastRoute.contains c) with
-          | some c => s!"VIOL nothing refers to cluster {c} any more (no route, no uncommitted RPC, no queued update) but it is still in the service config {causeOf d.m c}"
+          | some c => s!"VIOL nothing refers to cluster {showName c} any more (no route, no uncommitted RPC, no queued update) but it is still in the service config {causeOf d.m c}"
           | none => "ok"
         else "ok"
   | _, _, _ => "VIOL unparsable status: " ++ impl
@@ -96,34 +143,37 @@ def step (d : DSt) (fs : List String) (impl : String) : DSt × String × String 
   let prevAct := d.lastAct
   let finish (d : DSt) (pre : String) (recommit : Bool) : DSt × String × String :=
     let d := settle d
-    let d := { d with lastAct := (parseField impl "act=").getD "" }
-    (d, pre ++ status d.m, monitor d impl recommit prevAct)
+    let d := { d with lastAct := (parseField impl "act=").getD "" ++ " " ++ (parseField impl "pl=").getD "" }
+    (d, pre ++ status d, monitor d impl recommit prevAct)
   match fs with
   | ["rds", l] =>
     match parseRoutes l with
-    | some cl => finish { d with m := GrpcModel.ClusterRefs.step d.m (.rds cl), lastRoute := cl } "" false
+    | some (cl, pl) =>
+      finish { d with m := GrpcModel.ClusterRefs.step d.m (.rds cl), routeP := pl, lastRoute := cl ++ pl.map (· + 1000) } "" false
     | none => (d, "bad-op", "-")
-  | ["pause"] => finish { d with segs := d.segs ++ [0] } "" false
+  | ["pause"] => finish { (sync d) with segs := d.segs ++ [0] } "" false
   | ["next"] =>
     match d.segs with
     | [] => (d, "bad-op", "-")
-    | k :: rest => finish { d with m := deliverN k d.m, segs := rest } "" false
+    | k :: rest => finish { (deliverN k d) with segs := rest } "" false
   | ["select", id, c] =>
-    match id.toNat?, c.toNat? with
+    match id.toNat?, parseName c with
     | some id, some c =>
-      if d.m.rpcs.any (·.id == id) then (d, "bad-op", "-") else
-      let m' := GrpcModel.ClusterRefs.step d.m (.select id c)
-      let okM := m'.rpcs.any (·.id == id)
+      if d.m.rpcs.any (·.id == id) ∨ d.pm.rpcs.any (·.id == id) then (d, "bad-op", "-") else
+      let d' : DSt := if c ≥ 1000 then { d with pm := GrpcModel.PluginRefs.step d.pm (.select id (c - 1000)) }
+                      else { d with m := GrpcModel.ClusterRefs.step d.m (.select id c) }
+      let okM := d'.m.rpcs.any (·.id == id) || d'.pm.rpcs.any (·.id == id)
       let okI := impl.startsWith "ok "
-      let d := { d with m := m', inflight := if okI then d.inflight ++ [(id, c)] else d.inflight }
-      finish d (if okM then "ok " else if d.m.cur.isNone then "err:nocs " else "err:select ") false
+      let d' := { d' with inflight := if okI then d'.inflight ++ [(id, c)] else d'.inflight }
+      finish d' (if okM then "ok " else if d.m.cur.isNone then "err:nocs " else "err:select ") false
     | _, _ => (d, "bad-op", "-")
   | ["commit", id] =>
     match id.toNat? with
     | some id =>
-      let known := d.m.rpcs.any (·.id == id)
+      let known := d.m.rpcs.any (·.id == id) || d.pm.rpcs.any (·.id == id)
       let recommit := d.done.contains id
       let d := { d with m := GrpcModel.ClusterRefs.step d.m (.commit id),
+                        pm := GrpcModel.PluginRefs.step d.pm (.commit id),
                         inflight := d.inflight.filter (·.1 != id),
                         done := if impl.startsWith "ok " then d.done ++ [id] else d.done }
       finish d (if known then "ok " else "err:norpc ") recommit
